@@ -97,6 +97,12 @@ impl Property for C17 {
             push(false, [&[0u8][..], &s[..]].concat());
             push(false, [&s[..], &[0u8][..]].concat());
         }
+        // secrets for which the corpus holds records with rarely shaped signatures
+        for ed in [false, true] {
+            for s in crate::sigshapes::secrets(ed) {
+                push(ed, s.to_vec());
+            }
+        }
         Box::new(v.into_iter())
     }
     fn gen(&self, c: &mut Choices) -> Case {
@@ -250,6 +256,28 @@ impl Property for C17 {
                     r?;
                 }
             }
+        }
+        // committed records signed (by the reference signer) with this very secret whose signature bytes
+        // have a rare shape: they verify under the imported key's public key
+        for r in crate::sigshapes::corpus().iter().filter(|r| r.ed == kc.ed && r.secret[..] == kc.bytes[..]) {
+            let res = guarded(|| -> Result<(), String> {
+                let e = <Enr<CombinedKey> as alloy_rlp::Decodable>::decode(&mut r.bytes.as_slice())
+                    .map_err(|x| format!("a record correctly signed with the imported secret (signature shape {}) is rejected: {x:?}", r.shape))?;
+                if e.public_key().encode() != got_pk {
+                    return Err("decoded record's public key is not the imported key's".into());
+                }
+                if !e.verify() {
+                    return Err(format!("verify() false for a correctly signed record (signature shape {})", r.shape));
+                }
+                let content = crate::refmodel::record::content_from_fields(r.seq, &e.iter().map(|(k, v)| (k.clone(), v.to_vec())).collect::<Vec<_>>());
+                if !key.public().verify_v4(&content, &r.sig) {
+                    return Err(format!("public().verify_v4 false for a correct signature of shape {}", r.shape));
+                }
+                Ok(())
+            })
+            .map_err(|p| format!("sigshape record panicked: {p}"))?;
+            res?;
+            st.label("sigshape-record");
         }
         // records signed with the imported key verify under that public key
         let r = guarded(|| -> Result<(), String> {
